@@ -1,14 +1,25 @@
 #!/bin/bash
-# Run once after a fresh restore (offline): build /repo's extensions in place and the
-# whole Lean project (library with all theorems + every line-protocol driver).
-set -e
+# MANIFEST.setup_cmd — run once after a fresh restore (offline): build /repo's extensions in
+# place and, per claimed property, its Lean theorems (Pyiga.Props.Cxx and what it imports) and its
+# line-protocol driver.  A property whose Lean targets fail to build does not stop the others
+# (its own check will then report an infrastructure error); every check rebuilds what it needs
+# anyway (no-op when up to date).
 cd "$(dirname "$0")"
 (cd /repo && /venv/bin/python setup.py build_ext --inplace -j 8 > /tmp/verif_build_ext.log 2>&1) || { tail -50 /tmp/verif_build_ext.log; exit 1; }
 cd lean
-targets="Pyiga"
-for f in Drivers/C*.lean; do
-  [ -e "$f" ] || continue
-  n=$(basename "$f" .lean | tr 'A-Z' 'a-z')
-  targets="$targets drv_$n"
+fail=""
+for pid in $(python3 -c "import json;print(' '.join(c['property_id'] for c in json.load(open('../MANIFEST.json'))['checks']))"); do
+  n=$(echo "$pid" | tr 'A-Z' 'a-z')
+  targets=""
+  [ -e "Pyiga/Props/$pid.lean" ] && targets="$targets Pyiga.Props.$pid"
+  [ -e "Drivers/$pid.lean" ] && targets="$targets drv_$n"
+  [ -z "$targets" ] && continue
+  if lake build $targets > /tmp/verif_lake_$pid.log 2>&1; then
+    echo "setup: $pid built ($targets)"
+  else
+    echo "setup: WARNING $pid failed to build:"; grep -A8 "error:" /tmp/verif_lake_$pid.log | head -40
+    fail="$fail $pid"
+  fi
 done
-lake build $targets
+[ -n "$fail" ] && echo "setup: properties with Lean build failures:$fail"
+exit 0
